@@ -85,6 +85,7 @@ func dspChildMain() {
 func dspRunChild(in Fields) Fields {
 	obs, slow := dspRunChildOnce(in)
 	if slow {
+		fmt.Fprintln(os.Stderr, "dsp: child still making progress at the timeout (overloaded machine?); running the session once more")
 		obs2, slow2 := dspRunChildOnce(in)
 		if !slow2 {
 			return obs2
